@@ -7,6 +7,7 @@
    in vectors with amortised growth: their retained size is compared with the slack the property
    allows (proportional to the largest symbol), not predicted.  Statements only. *)
 From QwtModel Require Import ListX Seq Consts QVec RSQ QWT BitVec RSBin DArrayM Huff Prefetch Space QWTP SpaceP.
+From QwtModel Require WrapP RSQBuild.
 
 Theorem C16_rsq : forall r, len (rs_samples (rsq_rs r)) = 4 -> rsq_space r = rsq_heap r + 144.
 Proof. exact rsq_space_heap. Qed.
@@ -44,3 +45,22 @@ Theorem C16_qwt_built : forall w bsize seq t, width_ok w -> (bsize = 256 \/ bsiz
   forall pfs, qwt_space t pfs + (match pfs with Some ps => 32 * len ps | None => 0 end) = qwt_heap abi64 t pfs + 16.
 Proof. intros w bsize seq t Hw Hb Hs Hn E pfs. exact (qwt_new_space_heap w bsize seq t pfs Hw Hb Hs Hn E). Qed.
 Print Assumptions C16_qwt_built.
+
+(* Huffman-shaped trees: reported bytes = level bytes + constants + the code tables
+   (256 * 8 for codes_encode, 5 bytes per decode entry: the slack proportional to the alphabet the
+   property allows) *)
+Theorem C16_hq : forall t, Forall (fun r => len (rs_samples (rsq_rs r)) = 4) (h_qvs t) ->
+  hq_space t None = WrapP.hq_heap_levels t + 16 + 256 * 8 + sumN (map (fun v => len v * 5) (h_decode t)).
+Proof. exact WrapP.hq_space_heap. Qed.
+Print Assumptions C16_hq.
+Theorem C16_hq_built : forall bsize seq tab t, (bsize = 256 \/ bsize = 512) -> len seq < RSQBuild.RSQ_MAXN ->
+  hq_build bsize seq tab = Val t ->
+  hq_space t None = WrapP.hq_heap_levels t + 16 + 256 * 8 + sumN (map (fun v => len v * 5) (h_decode t)).
+Proof. exact WrapP.hq_build_space_heap. Qed.
+Print Assumptions C16_hq_built.
+Theorem C16_wt_any : forall compressed t,
+  wt_space compressed t + 8 * len (w_bvs t) =
+  wt_heap_plain abi64 t + 16 +
+  (if compressed then 256 * 8 + match w_decode t with Some d => len d * 5 | None => 0 end else 0).
+Proof. exact WrapP.wt_space_heap_gen. Qed.
+Print Assumptions C16_wt_any.
